@@ -5,6 +5,7 @@ import (
 	"encoding/hex"
 	"encoding/json"
 	"fmt"
+	"strconv"
 	"time"
 
 	"github.com/btcsuite/btcd/btcec/v2"
@@ -244,4 +245,36 @@ func VHarnessSigAllPosition() {
 	}
 	v.Assert(ProofsSigAll(proofs) == anySigAll, "C12 ProofsSigAll is true exactly when some input carries SIG_ALL, at any position")
 	v.Reach("checked")
+}
+
+// C06/C12: parsing the tags of an arbitrary NUT-10 secret never panics: 0..2 tags of 0..3 elements each, the tag name
+// drawn from the five known names or arbitrary, every other element an arbitrary string.
+func VHarnessP2PKTagsTotal() {
+	n := v.Int("nTags", 0, 2)
+	tags := make([][]string, n)
+	for i := range tags {
+		m := v.Int(fmt.Sprintf("tag%d.len", i), 0, 3)
+		tag := make([]string, m)
+		for j := range tag {
+			if j == 0 {
+				tag[j] = v.PickStr(v.U64(fmt.Sprintf("tag%d.name", i)), SIGFLAG, NSIGS, PUBKEYS, LOCKTIME, REFUND, "other")
+			} else if tag[0] == NSIGS || tag[0] == LOCKTIME {
+				// numeric fields: the decimal text of an arbitrary 64-bit integer, or text that is not a number
+				if v.Int(fmt.Sprintf("tag%d.%d.numeric", i, j), 0, 1) == 1 {
+					tag[j] = strconv.FormatInt(v.I64(fmt.Sprintf("tag%d.%d.value", i, j)), 10)
+				} else {
+					tag[j] = "not-a-number"
+				}
+			} else {
+				tag[j] = v.Str(fmt.Sprintf("tag%d.%d", i, j))
+			}
+		}
+		tags[i] = tag
+	}
+	_, err := ParseP2PKTags(tags)
+	if err == nil {
+		v.Reach("parsed")
+	} else {
+		v.Reach("rejected")
+	}
 }
